@@ -854,7 +854,7 @@ func Run(p *Program, tr *h.Tracer, traceID int64, scratch string) Result {
 		v int
 	}{{"ibs", cfg.IngestBufferSize}, {"mb_rows", cfg.MaxBufferedRows}, {"mb_bytes", cfg.MaxBufferedBytes},
 		{"mrg_rows", cfg.MaxRowGroupRows}, {"mrg_bytes", cfg.MaxRowGroupBytes},
-		{"mb_time_ms", int(cfg.MaxBufferedTime / time.Millisecond)}, {"timed", boolInt(p.Clock)}, {"seqmode", seqmode}} {
+		{"mb_time_ms", int(cfg.MaxBufferedTime / time.Millisecond)}, {"timed", boolInt(p.Clock)}, {"seqmode", seqmode}, {"fs", boolInt(p.Cfg.FS)}} {
 		v := lv.v
 		if v > 1<<30 {
 			v = 1 << 30
